@@ -475,6 +475,12 @@ def bracket_rule(ctx, rule):
                     attr_end[e.node.attr] = int(mm.group('i'))
                     continue
                 v = e.stmt.value if isinstance(e.stmt, ast.Assign) else None
+                if isinstance(v, (ast.Tuple, ast.List)) and isinstance(e.stmt, ast.Assign):
+                    # a.x, a.y = (p, q): the element that goes to this target
+                    for tg in e.stmt.targets:
+                        if isinstance(tg, (ast.Tuple, ast.List)) and len(tg.elts) == len(v.elts) and any(t is e.node for t in tg.elts):
+                            v = v.elts[[t is e.node for t in tg.elts].index(True)]
+                            break
                 if isinstance(v, ast.Name):
                     from ..resolve import path_defs
                     v = path_defs(p, e).get(v.id, v)
